@@ -11,7 +11,7 @@ import (
 
 func init() {
 	register(&Property{
-		ID: "C09",
+		ID:          "C09",
 		Explanation: "Decided for all paths: a verifyFuture is answered nil only on the leaderLoop arm where votes >= quorumSize (quorumSize != 0), or directly when the voter quorum is 1; quorumSize is the voter-majority of the latest configuration (folded for 0..64 voters); votes starts at 1 and is incremented only by vote(true); vote() notifies at most once; notifyAll(true) is called only after a successful AppendEntries/InstallSnapshot response, notifyAll(false) only on a newer term; the future is registered only with replication routines of voters.",
 		NotDecided:  "real-time freshness of each acknowledgement relative to the call (an ack produced by a request sent before the call still counts).",
 		RuleText:    "C09.R1 writer tables of votes/quorumSize; R2 guard of respond(nil); R3 guard of the registration map store; R4 notifyAll callers and arguments; R5 single notification in vote().",
